@@ -1,1 +1,109 @@
-def main : IO Unit := pure ()
+import NfcVerif.Model.Snep
+import NfcVerif.Model.Handover
+open NfcVerif NfcVerif.Chan
+
+/-! line protocol of the C06 model driver
+
+* `snep <cmiu> <cacc> <smiu> <maxacc> <close 0|1> <op>...` with
+  `op = p/<hex>/<valid 0|1>/<code>` or `g/<hex>/<valid>/c<code>` or `g/<hex>/<valid>/d<hex>`
+* `ho <cmiu> <smiu> <reset 0|1> <req hex>/<resp hex> ...`
+* `ndefc <hex>`, `chunks <miu> <hex>`
+-/
+
+def hexList (l : List Bytes) : String :=
+  if l.isEmpty then "." else ",".intercalate (l.map toHex)
+
+def showRes : Snep.CRes → String
+  | .okTrue => "True" | .okFalse => "False" | .okNone => "None"
+  | .okData d => "data:" ++ toHex d
+  | .snepError c => s!"SnepError({c})"
+  | .exc e => "exc:" ++ e.name
+  | .hang => "hang"
+
+def showSState : Snep.SState → String
+  | .idle => "idle" | .reasm _ _ => "reasm" | .awaitCont _ => "awaitCont"
+  | .closed => "closed" | .crashed e => "crashed:" ++ e.name
+
+def showDl (l : List (Snep.Op × Bytes)) : String :=
+  if l.isEmpty then "." else ",".intercalate (l.map fun (o, d) =>
+    (match o with | .put => "p:" | .get => "g:") ++ toHex d)
+
+structure SOp where
+  op : Snep.Op
+  octets : Bytes
+  h : Snep.Handlers
+
+def parseOp (s : String) : Option SOp :=
+  match s.splitOn "/" with
+  | [k, h, v, r] =>
+    match parseHex h with
+    | none => none
+    | some octets =>
+      let valid := v == "1"
+      if k == "p" then
+        r.toNat?.map fun code => { op := .put, octets, h := { valid := fun _ => valid, put := fun _ => code, get := fun _ => .inl 0xE0 } }
+      else if k == "g" then
+        if r.startsWith "c" then
+          (r.drop 1).toString.toNat?.map fun code => { op := .get, octets, h := { valid := fun _ => valid, put := fun _ => 0x81, get := fun _ => .inl code } }
+        else
+          (parseHex (r.drop 1).toString).map fun d => { op := .get, octets, h := { valid := fun _ => valid, put := fun _ => 0x81, get := fun _ => .inr d } }
+      else none
+  | _ => none
+
+def runSnep (cmiu cacc smiu maxacc : Nat) (close : Bool) (ops : List SOp) : String :=
+  let cc : Snep.CCfg := { miu := cmiu, acc := cacc }
+  let rec go (n : Snep.SNet) (ops : List SOp) (res : List String) : Snep.SNet × List String :=
+    match ops with
+    | [] => (n, res.reverse)
+    | o :: rest =>
+      let cfg : Snep.SCfg := { maxAcc := min maxacc 0xFFFFFFFF, smiu := smiu, h := o.h }
+      let n1 := Snep.runOp cfg cc (o.octets.length + (match o.h.get o.octets with | .inr d => d.length | .inl _ => 0) + 50) n o.op o.octets
+      go { n1 with cst := .done (Snep.result n1) } rest (showRes (Snep.result n1) :: res)
+  let (n, res) := go Snep.init ops []
+  let lastH : Snep.Handlers := match ops.getLast? with
+    | some o => o.h
+    | none => { valid := fun _ => false, put := fun _ => 0x81, get := fun _ => .inl 0xE0 }
+  let n := if close then Snep.closeConn { maxAcc := min maxacc 0xFFFFFFFF, smiu := smiu, h := lastH } n else n
+  s!"c2s={hexList n.logC} s2c={hexList n.logS} dl={showDl n.dl} res={",".intercalate res} sst={showSState n.sst}"
+
+def parseReq (s : String) : Option (Bytes × Bytes) :=
+  match s.splitOn "/" with
+  | [a, b] => match parseHex a, parseHex b with
+    | some x, some y => some (x, y)
+    | _, _ => none
+  | _ => none
+
+def showOpt : Option Bytes → String
+  | none => "None"
+  | some d => "data:" ++ toHex d
+
+def runHo (cmiu smiu : Nat) (reset : Bool) (reqs : List (Bytes × Bytes)) : String :=
+  let rec go (n : Handover.HNet) (reqs : List (Bytes × Bytes)) (res : List String) : Handover.HNet × List String :=
+    match reqs with
+    | [] => (n, res.reverse)
+    | (m, rsp) :: rest =>
+      let cfg : Handover.HCfg := { smiu, complete := Handover.ndefComplete, handler := fun _ => rsp, reset }
+      let n1 := Handover.runReq cfg cmiu (m.length + rsp.length + 50) n m
+      go { n1 with cst := .idle } rest (showOpt (Handover.result n1) :: res)
+  let (n, res) := go Handover.init reqs []
+  s!"c2s={hexList n.logC} s2c={hexList n.logS} dl={hexList n.dl} res={",".intercalate res}"
+
+def handle (line : String) : String :=
+  match line.splitOn " " with
+  | "snep" :: a :: b :: c :: d :: cl :: ops =>
+    match a.toNat?, b.toNat?, c.toNat?, d.toNat?, ops.mapM parseOp with
+    | some cmiu, some cacc, some smiu, some maxacc, some ops => runSnep cmiu cacc smiu maxacc (cl == "1") ops
+    | _, _, _, _, _ => "bad-op"
+  | "ho" :: a :: b :: r :: reqs =>
+    match a.toNat?, b.toNat?, reqs.mapM parseReq with
+    | some cmiu, some smiu, some reqs => runHo cmiu smiu (r == "1") reqs
+    | _, _, _ => "bad-op"
+  | ["ndefc", h] => match parseHex h with
+    | some d => if Handover.ndefComplete d then "true" else "false"
+    | none => "bad-op"
+  | ["chunks", m, h] => match m.toNat?, parseHex h with
+    | some miu, some d => hexList (chunks miu d)
+    | _, _ => "bad-op"
+  | _ => "bad-op"
+
+def main : IO Unit := runDriver handle
